@@ -3,7 +3,7 @@
 //! per-call contracts only imply by composition are observed directly (C01 funding, C02, C04, C07, C08, C09).
 use crate::{Driver, Outcome, Rng};
 use crate::d_hubworld::{setup, uer, mulf, World, DENOM, E18};
-use basset::hub::{CurrentBatch, Cw20HookMsg, ExecuteMsg, QueryMsg, State, UnbondHistory, UnbondRequestsResponse};
+use basset::hub::{AllHistoryResponse, CurrentBatch, Cw20HookMsg, ExecuteMsg, QueryMsg, State, UnbondHistory, UnbondRequestsResponse};
 use basset_sei_hub::contract::{execute, query};
 use basset_sei_hub::state::{read_unbond_history, CURRENT_BATCH, STATE};
 use cosmwasm_std::testing::{mock_env, mock_info, MockApi, MockStorage};
@@ -249,6 +249,23 @@ impl Driver for HubSeq {
             if !ever_disturbed && accepted && kind == "withdraw" { and(&mut c, "hs#C01.no_loss_without_slashing", true); }
             trace.push(json!({"op": kind, "who": USERS[who], "accepted": accepted, "err": err, "now": now, "balance": deps.querier.balance.to_string(), "matured_due": matured_due.to_string(), "paid": paid.to_string(),
                               "books": [st1.total_bond_bsei_amount.to_string(), st1.total_bond_stsei_amount.to_string()], "delegated": delegated1.to_string(), "slashed_unrecognised": slashed_since_check}));
+        }
+        // C07: the AllHistory query reports the stored batches faithfully: paging through it yields every batch exactly once, in order, with the stored fields
+        {
+            let mut stored: Vec<UnbondHistory> = vec![]; let mut id = 1u64;
+            while let Ok(h) = read_unbond_history(&deps.storage, id) { stored.push(h); id += 1; }
+            let mut paged: Vec<(u64, u64, u128, u128, String, String, String, String, bool)> = vec![]; let mut start: Option<u64> = None; let mut guard = 0;
+            loop {
+                let r: AllHistoryResponse = from_json(&query(deps.as_ref(), mock_env(), QueryMsg::AllHistory { start_from: start, limit: Some(3) }).unwrap()).unwrap();
+                if r.history.is_empty() || guard > 200 { break; }
+                guard += 1;
+                start = Some(r.history.last().unwrap().batch_id);
+                for h in r.history.iter() { paged.push((h.batch_id, h.time, h.bsei_amount.u128(), h.stsei_amount.u128(), h.bsei_applied_exchange_rate.to_string(), h.bsei_withdraw_rate.to_string(), h.stsei_applied_exchange_rate.to_string(), h.stsei_withdraw_rate.to_string(), h.released)); }
+            }
+            let want: Vec<_> = stored.iter().map(|h| (h.batch_id, h.time, h.bsei_amount.u128(), h.stsei_amount.u128(), h.bsei_applied_exchange_rate.to_string(), h.bsei_withdraw_rate.to_string(), h.stsei_applied_exchange_rate.to_string(), h.stsei_withdraw_rate.to_string(), h.released)).collect();
+            and(&mut c, "hs#C07.all_history_reports_stored_batches", paged == want);
+            let first: AllHistoryResponse = from_json(&query(deps.as_ref(), mock_env(), QueryMsg::AllHistory { start_from: None, limit: None }).unwrap()).unwrap();
+            and(&mut c, "hs#C07.all_history_reports_stored_batches", first.history.len() == stored.len().min(10) && first.history.iter().zip(stored.iter()).all(|(a, b)| a.batch_id == b.batch_id && a.bsei_amount == b.bsei_amount && a.stsei_amount == b.stsei_amount && a.released == b.released));
         }
         (c, json!({"trace": trace, "received": received.iter().map(|x| x.to_string()).collect::<Vec<_>>()}))
     }
